@@ -48,6 +48,10 @@ def catalogue():
     add('len16-nonminimal', F(1, b'abc', lenform=16))
     add('len64-nonminimal', F(2, b'\x00\xff\x80', lenform=64))
     add('two-messages', F(1, b'hi') + F(2, b'\x01\x02'))
+    add('two-len16-frames', F(1, b'a', lenform=16) + F(2, b'b', lenform=16))
+    add('len16-then-len64-then-len16', F(1, b'', lenform=16) + F(2, b'', lenform=64) + F(1, b'c', lenform=16))
+    add('two-real-len16-frames', F(2, b'x' * 126) + F(9, b'') + F(2, b'y' * 127))
+    add('two-len64-frames', F(2, b'p', lenform=64) + F(2, b'q', lenform=64))
     add('ping-pong-payloads', F(9, b'pi') + F(10, b'po') + F(9, b''))
     add('empty-text-and-fragments', F(1, b'') + F(2, b'', fin=0) + F(0, b'', fin=0) + F(0, b''))
     add('astral-char-3-fragments', F(1, b'\xf0\x9f', fin=0) + F(0, b'\x98', fin=0) + F(0, b'\x80'))
